@@ -291,3 +291,76 @@ def model_matches_real_threads(budget: float, replay=None) -> dict:
             samples.append({"schedule": {"first": first, "preempt_after_statement": p1}, "segments": res["segments"], "model_results": model, "real_thread_results": rout})
     verdict = "CONFIRMED" if not bad else "ERROR"
     return {"verdict": verdict, "queries": len(cases), "discharged": agree, "solver_s": 0.0, "samples": samples, "detail": f"model/real-thread disagreement: {bad[:2]}" if bad else ""}
+
+
+def _seq_reference(nonces: list[str], times: list[int], cap: int, ttl: int) -> list[bool]:
+    """Specification of the cache for a single caller: live (nonce, expiry) pairs in insertion
+    order; expired entries leave; a seen nonce is refused; at capacity the OLDEST entry is evicted."""
+    live: list[tuple[str, int]] = []
+    out: list[bool] = []
+    for nz, tz in zip(nonces, times):
+        while live and live[0][1] <= tz:
+            live.pop(0)
+        seen = False
+        for (m, _e) in live:
+            if m == nz:
+                seen = True
+        if seen:
+            out.append(False)
+        else:
+            out.append(True)
+            while len(live) >= cap:
+                live.pop(0)
+            live.append((nz, tz + ttl))
+    return out
+
+
+_NAMES = ("a", "b", "c", "d")
+
+
+def _pick_name(i: int) -> str:
+    if i == 0:
+        return "a"
+    if i == 1:
+        return "b"
+    if i == 2:
+        return "c"
+    return "d"
+
+
+def _history(cap: int, ttl, names: list[str], deltas: list) -> bool:  # type: ignore[no-untyped-def]
+    clock = _Clock(deltas)
+    cache = rp.NonceCache(ttl_seconds=1, capacity=cap, clock=clock)
+    cache.ttl_seconds = ttl
+    times: list = []
+    acc = 0
+    for dd in deltas:
+        acc = acc + dd
+        times.append(acc)
+    got = [cache.check_and_add(nz) for nz in names]
+    want = _seq_reference(names, times, cap, ttl)
+    return got == want and len(cache) <= cap
+
+
+@cond(q=90, t=200, engine="xh", encoded=ENCODED, bound="5 sequential calls a, b, x, y, z with x,y,z any of {a,b,c}; capacity 2; each clock step 0 or exactly ttl (=5)")
+def sequential_history_eviction_order(n2: int, n3: int, n4: int, j1: bool, j2: bool, j3: bool, j4: bool) -> bool:
+    """
+    pre: 0 <= n2 <= 2 and 0 <= n3 <= 2 and 0 <= n4 <= 2
+    post: _
+    """
+    # long enough for eviction ORDER to matter (fill, replay, overflow, replay again): exact
+    # accept/reject of the un-rewritten real methods against the specification
+    names = ["a", "b", _pick_name(n2), _pick_name(n3), _pick_name(n4)]
+    deltas = [0, 5 if j1 else 0, 5 if j2 else 0, 5 if j3 else 0, 5 if j4 else 0]
+    return _history(2, 5, names, deltas)
+
+
+@cond(q=120, t=1500, tiers=("thorough",), engine="xh", encoded=ENCODED, bound="6 sequential calls over 4 nonce names (first two fixed a, b), capacity 2..3, unbounded integer clock steps and ttl")
+def sequential_history_matches_reference(cap3: bool, ttl: int, n2: int, n3: int, n4: int, n5: int, d1: int, d2: int, d3: int, d4: int, d5: int) -> bool:
+    """
+    pre: ttl > 0 and 0 <= n2 <= 3 and 0 <= n3 <= 3 and 0 <= n4 <= 3 and 0 <= n5 <= 3
+    pre: d1 >= 0 and d2 >= 0 and d3 >= 0 and d4 >= 0 and d5 >= 0
+    post: _
+    """
+    names = ["a", "b", _pick_name(n2), _pick_name(n3), _pick_name(n4), _pick_name(n5)]
+    return _history(3 if cap3 else 2, ttl, names, [0, d1, d2, d3, d4, d5])
